@@ -136,6 +136,15 @@ def directed_histories():
             D.append(dict(kind="E", fs=fs, ch=lay, app=[2049, 2048, 2051][q % 3], pre=[(4036, lsb), (4010, 10), (4002, 32000 * nch)], sig=sig, fd=8,
                           lsb16=False, ops=[("C", 1), ("C", 2), ("C", 3), ("U", 1, 0, 8, 0), ("U", 2, 0, 8, 1), ("U", 3, 0, 8, 2)],
                           tokens={}, lens=None, once=True, tiers=("quick", "thorough") if q % 3 != 2 else ("thorough",)))
+    # the same on very quiet 16-bit material (band energies between a 16-bit and a 24-bit noise floor) on EVERY stream: an LSB depth
+    # that the multistream ctl did not hand to all streams makes the 16-bit entry point code other packets than float / 24-bit (C13-9)
+    for lay in (1, 3, 2):
+        for (sig, lsb) in ((12, 16), (15, 16), (17, 14)):
+            q += 1
+            nch = [2, 3, 6, 4][lay]
+            D.append(dict(kind="E", fs=48000, ch=lay, app=[2049, 2051, 2049][q % 3], pre=[(4036, lsb), (4010, 10), (4002, 64000 * nch)], sig=sig, fd=8,
+                          lsb16=False, ops=[("C", 1), ("C", 2), ("C", 3), ("U", 1, 0, 24, 0), ("U", 2, 0, 24, 1), ("U", 3, 0, 24, 2)],
+                          tokens={}, lens=None, once=True, tiers=("quick", "thorough") if lay != 2 or sig == 15 else ("thorough",)))
     plines, psidx = packet_streams(None)
     fdmap = stream_fd(plines)
     # decoders carrying settings (phase inversion other than the default of their channel count, gain, complexity) on anti-phase
